@@ -43,7 +43,7 @@ def declare(spec):
         'evpub_socket': Ref('PubSocket'), 'sockets': VAL, '_stopping': BOOL, '_restarting': BOOL,
         '_exclusive_running_command': VAL, 'warmup_delay': REAL, 'socket_event': BOOL,
     })
-    spec.Class('Command', qual='circus.commands.base:Command', fields={})
+    spec.Class('Command', qual='circus.commands.base:Command', fields={'properties': List(STR)})
     spec.ghost('evlog', List(PUBEV))
     # ---- the exclusive slot (C10).  SyncHost = "whatever a synchronized method is bound to":
     # a Watcher (has .arbiter) or an Arbiter (has ._exclusive_running_command) or neither.
